@@ -487,6 +487,12 @@ fn translate_block(
                 _ => {}
             }
 
+            let in_delay_slot = matches!(
+                branch_delay,
+                TranslateBranchDelay::DelaySlot(..)
+                    | TranslateBranchDelay::DelaySlotFallThrough(..)
+            );
+
             // We need to make the conditional branch comparison, save it to a
             // temporary, and branch based on the temporary.
             //
@@ -671,6 +677,19 @@ fn translate_block(
                     // instruction.
                     instruction_graph.set_address(Some(instruction.address));
                 }
+            }
+
+            // a branch in a delay slot is unpredictable on MIPS and would lose
+            // the pending branch
+            if in_delay_slot
+                && matches!(
+                    branch_delay,
+                    TranslateBranchDelay::Branch | TranslateBranchDelay::BranchFallThrough
+                )
+            {
+                return Err(
+                    format!("MIPS branch in a delay slot at 0x{:x}", instruction.address).into(),
+                );
             }
 
             branch_delay = match branch_delay {
